@@ -1,0 +1,32 @@
+//go:build verif
+
+// Add-only verification hook for property C11, sparse matrices: read-only access
+// to the private `values` vector of a sparse matrix, so that VerifC11Dump can
+// dump its map, nil placeholders and AVL index keys.
+package autodiff
+
+// VerifC11MatValues returns the private storage vector of a sparse matrix (nil,
+// false when m is not one of the nine sparse matrix types).
+func VerifC11MatValues(m ConstMatrix) (interface{}, bool) {
+  switch a := m.(type) {
+  case *SparseInt8Matrix:
+    return a.values, true
+  case *SparseInt16Matrix:
+    return a.values, true
+  case *SparseInt32Matrix:
+    return a.values, true
+  case *SparseInt64Matrix:
+    return a.values, true
+  case *SparseIntMatrix:
+    return a.values, true
+  case *SparseFloat32Matrix:
+    return a.values, true
+  case *SparseFloat64Matrix:
+    return a.values, true
+  case *SparseReal32Matrix:
+    return a.values, true
+  case *SparseReal64Matrix:
+    return a.values, true
+  }
+  return nil, false
+}
